@@ -82,6 +82,16 @@ RULES = {
         replace='{ let mut i__ = coefs.len(); while i__ > 0 { i__ -= 1; let coef = &coefs[i__]; $BODY } } result }',
         why='Rev has no vstd model',
         assumes='std semantics of slice::Iter::rev(): elements visited from the last to the first'),
+    # ---- C16 retyping of the autogenerated evaluators (the only signature-level rewrites)
+    'C16_retype_coeffs': dict(
+        kind='C16', pattern='constraint_coefficients: &[Felt],', replace='constraint_coefficients: &[crate::coeff::Coeff],',
+        why='coefficient-typing contract of property C16', assumes='none (the body must type-check unchanged under the stricter types)'),
+    'C16_retype_ret_comp': dict(
+        kind='C16', pattern='global_values: &GlobalValues, ) -> Felt {', replace='global_values: &GlobalValues, ) -> crate::coeff::Lin {',
+        why='coefficient-typing contract of property C16', assumes='none'),
+    'C16_retype_ret_oods': dict(
+        kind='C16', pattern='trace_generator: &Felt, ) -> Felt {', replace='trace_generator: &Felt, ) -> crate::coeff::Lin {',
+        why='coefficient-typing contract of property C16', assumes='none'),
     # ---- air: types.rs (Page::get_product), diluted.rs
     'R4_loop_break_value': dict(
         kind='R4',
